@@ -42,8 +42,8 @@ func fpRun(input string, mult int) fpObs {
 	}
 	sp.Expect = len(sp.LQRows)
 	sp.Footprint = true
-	sp.TimeoutMs = 90000
-	res, _, status := runChild(sp, 120*time.Second)
+	sp.TimeoutMs = 300000 // with the rate limiter on, 403/429 penalties (5 s doubling to 30 s) stretch a run; a loaded machine more so
+	res, _, status := runChild(sp, 400*time.Second)
 	if res == nil || status != "" || !res.StopReturned || res.TimedOut {
 		note("footprint run [" + input + " x" + strconv.Itoa(mult) + "]: " + status)
 		return fpObs{}
